@@ -105,6 +105,33 @@ Theorem C09_handshake : forall wa wb ka kb ops, 1 <= wa -> 1 <= wb ->
 Proof. exact handshake. Qed.
 Print Assumptions C09_handshake.
 
+(* ... and that state IS reached: from any reachable state in which both applications have closed, delivering
+   what is in flight and running queued callbacks - rounds of [deliver A->B; deliver B->A; run A; run B], at most
+   pm(p) of them, pm an explicit measure that every delivery and every callback run decreases - ends with both
+   endpoints fully closed (or a protocol error has ended the connection).  Every other fair delivery order
+   decreases the same measure (C09_delivery_decreases_measure). *)
+Theorem C09_handshake_reached : forall wa wb ka kb ops, 1 <= wa -> 1 <= wb ->
+  let p := prun true ops (pair0 wa wb ka kb) in
+  perr p = false -> e_closing (pa p) = true -> e_closing (pb p) = true ->
+  let p' := prun true (rounds (pm p)) p in
+  perr p' = true \/ (quiescent p' = true /\ fully_closed (pa p') = true /\ fully_closed (pb p') = true).
+Proof. exact handshake_reached. Qed.
+Print Assumptions C09_handshake_reached.
+
+Theorem C09_delivery_decreases_measure : forall p o,
+  pinv p -> perr p = false -> is_drain_op o = true ->
+  let p' := pstep true p o in
+  perr p' = false -> pm p' <= pm p /\
+  (match o with
+   | ODeliver SA => wab p <> []
+   | ODeliver SB => wba p <> []
+   | ORun SA => 0 < e_pend (pa p)
+   | ORun SB => 0 < e_pend (pb p)
+   | _ => False
+   end -> pm p' < pm p).
+Proof. exact drain_op_meas. Qed.
+Print Assumptions C09_delivery_decreases_measure.
+
 (* The code before /repo 03faaad (no window credit for receive data that close() discards or drops)
    violates it: both readers paused, both sides write more than the peer's window, both call close():
    everything has been delivered, nothing is queued, and both stay send_state close_pending / recv_state
